@@ -87,7 +87,13 @@ impl Prop for C08 {
     fn gen(&self, rng: &mut Rng, n: usize, tier: Tier, out: &mut Vec<String>) {
         std::panic::set_hook(Box::new(|_| {}));
         for case in 0..n {
-            let c = cfg(rng, tier);
+            let mut c = cfg(rng, tier);
+            // round 3: one OPN case of every run uses the 4096-bit receiver key (two-byte padding length,
+            // the other branch of verify_padding), with thinned-out mutants to stay fast
+            let big_key_case = case == 2;
+            if big_key_case {
+                c.own = 4;
+            }
             out.push(c.reset_line());
             let peer = c.peer_channel(c.policy, c.mode);
             let mut ops: Vec<(String, Vec<u8>)> = Vec::new();
@@ -119,8 +125,14 @@ impl Prop for C08 {
                         // Basic256Sha256 and Aes256Sha256RsaPss share one symmetric suite (P_SHA256,
                         // HMAC-SHA256/32, AES-256): from the same nonces they derive the SAME keys, so a
                         // chunk secured under the one is a legitimate chunk of the other, not a mutant
+                        // (in Sign mode Aes128Sha256RsaOaep joins them: same 32-byte HMAC-SHA256 key, and the
+                        // AES key that differs is not used)
+                        let sign_only = c.mode == MessageSecurityMode::Sign;
                         let same_suite = |a: SecurityPolicy, b: SecurityPolicy| {
-                            let s = |p| matches!(p, SecurityPolicy::Basic256Sha256 | SecurityPolicy::Aes256Sha256RsaPss);
+                            let s = |p| {
+                                matches!(p, SecurityPolicy::Basic256Sha256 | SecurityPolicy::Aes256Sha256RsaPss)
+                                    || (sign_only && p == SecurityPolicy::Aes128Sha256RsaOaep)
+                            };
                             s(a) && s(b)
                         };
                         let label = if same_suite(pol2, c.policy) { "valid-sym-same-suite" } else { "mut-sym-foreign-policy" };
@@ -143,9 +155,23 @@ impl Prop for C08 {
                 let body = rng.bytes(blen);
                 let Some(base) = secured_chunk(&peer, MessageChunkType::OpenSecureChannel, 1, 1, &body) else { continue };
                 ops.push(("valid-opn".into(), base.clone()));
-                mutants(rng, "opn", &base, stride * 5, 90, &mut ops);
+                if big_key_case {
+                    mutants(rng, "opn", &base, 97, 24, &mut ops);
+                } else {
+                    mutants(rng, "opn", &base, stride * 5, 90, &mut ops);
+                }
                 let signer = key(c.peer);
                 let own = key(c.own);
+                // whole RSA blocks removed from the end (the rest still decrypts): 1 block left, 1 block off
+                let hdr_len = 12 + 4 + c.policy.to_uri().len() + 4 + signer.der.len() + 24;
+                let blocks = (base.len() - hdr_len) / own.size;
+                for keep in [1usize, blocks.saturating_sub(1)] {
+                    if keep >= 1 && keep < blocks {
+                        let mut v = base[..hdr_len + keep * own.size].to_vec();
+                        fix(&mut v);
+                        ops.push(("mut-opn-trunc-blocks".into(), v));
+                    }
+                }
                 let (_, _, overhead) = rsa_padding(c.policy);
                 let mut plain = rng.bytes(8);
                 plain.extend_from_slice(&body);
